@@ -72,6 +72,21 @@ K17 = [
         "main.py": "class Kls:\n    @staticmethod\n    def meth({0}):\n        {1} = {0} + 1\n        return {1} * 2\n    def other(self, {0}):\n        {1} = {0} + 2\n        return {1}\nprint(Kls.meth(1), Kls().other(1))\n"}),
      lambda files, names: dict(api="local_to_field", path="main.py", offset=_off(files, "main.py", "        ", 0, 8))),
     # the nested helper reads a variable of the enclosing function (a closure)
+    # a write to the field inside a parenthesised / bracketed tuple target, not on the first line of the module
+    (Skeleton("f13_encapsulate_paren_tuple_write_second", {
+        "mod.py": "class Kls:\n    def __init__(self, {0}):\n        self.{1} = {0}\n    def get(self, {2}):\n        return self.{1} + {2}\n",
+        "main.py": "from mod import Kls\n{3} = Kls(1)\n({4}, {3}.{1}) = 3, 4\nprint({3}.{1}, {4}, {3}.get(1))\n"}),
+     lambda files, names: dict(api="encapsulate_field", path="mod.py", offset=_off(files, "mod.py", "self.", 0, 5))),
+    # a write to the field inside a parenthesised / bracketed tuple target, not on the first line of the module
+    (Skeleton("f14_encapsulate_paren_tuple_write_first", {
+        "mod.py": "class Kls:\n    def __init__(self, {0}):\n        self.{1} = {0}\n    def get(self, {2}):\n        return self.{1} + {2}\n",
+        "main.py": "from mod import Kls\n{3} = Kls(1)\n({3}.{1}, {4}) = 3, 4\nprint({3}.{1}, {4}, {3}.get(1))\n"}),
+     lambda files, names: dict(api="encapsulate_field", path="mod.py", offset=_off(files, "mod.py", "self.", 0, 5))),
+    # a write to the field inside a parenthesised / bracketed tuple target, not on the first line of the module
+    (Skeleton("f15_encapsulate_bracket_tuple_write", {
+        "mod.py": "class Kls:\n    def __init__(self, {0}):\n        self.{1} = {0}\n    def get(self, {2}):\n        return self.{1} + {2}\n",
+        "main.py": "from mod import Kls\n{3} = Kls(1)\n[{4}, {3}.{1}] = 3, 4\nprint({3}.{1}, {4}, {3}.get(1))\n"}),
+     lambda files, names: dict(api="encapsulate_field", path="mod.py", offset=_off(files, "mod.py", "self.", 0, 5))),
     (Skeleton("f09_method_object_closure", {
         "main.py": "def outer({0}):\n    {1} = {0} + 1\n    def helper({2}):\n        return {2} * {1}\n    return helper(2)\nprint(outer(1))\n"}),
      lambda files, names: dict(api="method_object", path="main.py", offset=_off(files, "main.py", "helper"), name="FunObject")),
